@@ -18,15 +18,19 @@ import tempfile
 from harness import core, gen, histcheck, isoapi
 from harness.props import c01
 
-CLAIM = False      # not registered until the refusal paths are repaired / recorded and Props/C14.lean exists
 LEAN_MODULES = ['Pycdlib.Props.C14']
-THEOREMS = ['Pycdlib.Atomic.refused_unchanged', 'Pycdlib.Atomic.run_skips_refused', 'Pycdlib.Atomic.partial_witness']
+THEOREMS = ['Pycdlib.Atomic.refused_unchanged', 'Pycdlib.Atomic.checked_agrees', 'Pycdlib.Atomic.parts_indep',
+            'Pycdlib.Atomic.step_refused_unchanged', 'Pycdlib.Atomic.step_agrees', 'Pycdlib.Atomic.run_skips_refused',
+            'Pycdlib.Atomic.partial_witness']
 PARTIAL = {
-    'refused_unchanged_partial': 'proved for calls of the shape "check every precondition, then mutate" (Atomic.call); which public '
-    'calls have that shape is decided by refusal injection. Calls that mutate one namespace before validating the next are listed '
-    'as known findings, one per (API, namespace position, cause)',
+    'refused_unchanged_partial': 'proved for every edit run as "check every namespace part, then apply them" (Atomic.checked), for any '
+    'state, preconditions and effects; the three-namespace add/rmdir instance is tied to the library by the refusal correspondence '
+    '(model verdict == library verdict on every generated and every injected add_fp / add_directory / rm_directory). That each public '
+    'call (also links, symlinks, El Torito, isohybrid, hide) really leaves the object untouched when it raises is decided by refusal '
+    'injection with byte-exact comparison, not by the theorem.',
 }
-TRUSTED = ['the refusing-variant generator reaches the refusal causes that exist (distribution in evidence)']
+TRUSTED = ['the refusing-variant generator reaches the refusal causes that exist (distribution in evidence)',
+           'Rock Ridge name rules, path depth and El Torito parameters are outside the Atomic instance (injection only)']
 ASSUMPTIONS = ['time/random frozen so that two runs of the same edits are byte-identical']
 RULE = ('for each generated history, 6 (quick) / 25 refusing variants at random positions; distinct = (cfg, ops, position, variant); '
         'non-trivial = the variant was actually refused by the library')
@@ -181,11 +185,45 @@ def variants(rng, cfg, sh):
     return out
 
 
+def _tok_path(path):
+    comps = [c for c in path.split('/') if c]
+    return '/'.join('.'.join(str(ord(ch)) for ch in c) for c in comps)
+
+
+def atomic_line(cfg, sh, op):
+    """the request that asks the Lean model (Model/Atomic `stepChecked`) whether this add/rmdir is refused in state `sh`"""
+    kind = {'addfp': 'addfile', 'adddir': 'adddir', 'rmdir': 'rmdir'}.get(op['op'])
+    if kind is None or op.get('mode') is not None:
+        return None
+    toks = []
+    for ns in ('i', 'j', 'u'):
+        if ns not in sh.nss:
+            toks.append('0')
+            continue
+        es = []
+        for n in sh.nodes:
+            if n.parent is None:
+                continue
+            p = n.path(ns)
+            if p is None or ns not in n.names:
+                continue
+            es.append(('d' if n.kind == 'dir' else 'f') + _tok_path(p))
+        toks.append(','.join(es) or '-')
+    paths = []
+    for key in ('iso', 'joliet', 'udf'):
+        v = op.get(key)
+        if v is not None and not _tok_path(v):
+            return None
+        paths.append(_tok_path(v) if v is not None else '-')
+    return 'atomic %d %d %d %s %s %s' % (cfg['ilevel'], 1 if cfg.get('rr') else 0, 1 if cfg.get('xa') else 0, ' '.join(toks), kind, ' '.join(paths))
+
+
 def run_history(ctx, rng, cfg, nops):
     # build the accepted history while remembering the shadow after each accepted op
     s = histcheck.Session(cfg, tempfile.gettempdir())
     sh = gen.Shadow(cfg, rng)
     injected = []
+    pending_lines = {}
     attempts = 0
     with isoapi.frozen_time():
         while len(s.ops) < nops and attempts < nops * 4:
@@ -194,14 +232,21 @@ def run_history(ctx, rng, cfg, nops):
             if g is None:
                 continue
             op, effect = g
+            line = atomic_line(cfg, sh, op)
             res = s.apply(op)
+            if line is not None:
+                ctx.atomic.append((line, res, 'generated %s' % op['op'], {'kind': 'atomic', 'cfg': cfg, 'ops': list(s.ops), 'op': op}))
             if res == 'ok':
                 sh.commit(effect)
                 s.record(op, res)
                 if rng.random() < 0.5:
                     vs = variants(rng, cfg, sh)
                     if vs:
-                        injected.append((len(s.ops), rng.choice(vs)))
+                        v = rng.choice(vs)
+                        injected.append((len(s.ops), v))
+                        line = atomic_line(cfg, sh, v[0])
+                        if line is not None and '/rr/' not in v[1]:
+                            pending_lines[len(injected) - 1] = line
             else:
                 ops = list(s.ops)
                 s.close()
@@ -241,11 +286,13 @@ def run_history(ctx, rng, cfg, nops):
         return
     h0 = hashlib.sha256(base_img).hexdigest()
     budget = 6 if ctx.quick else 25
-    for pos, (vop, cause) in injected[:budget]:
+    for idx, (pos, (vop, cause)) in enumerate(injected[:budget]):
         ops = base_ops[:pos] + [vop] + base_ops[pos:]
         img, res, err = image_of(cfg, ops)
         r = res[pos]
         rp = {'kind': 'history', 'cfg': cfg, 'ops': ops, 'pos': pos, 'cause': cause}
+        if idx in pending_lines:
+            ctx.atomic.append((pending_lines[idx], r, cause, rp))
         ctx.count(key=(repr(sorted(cfg.items())), repr(ops)), nontrivial=(r != 'ok'), kind='variant:%s:%s' % (cause, r),
                   sample={'cfg': cfg, 'refusing': histcheck.short(vop), 'cause': cause, 'result': r} if r != 'ok' else None)
         if r == 'ok':
@@ -262,15 +309,32 @@ def run_history(ctx, rng, cfg, nops):
     ctx.traces_validated += 1
 
 
+def check_atomic(ctx):
+    """correspondence: the Lean validate-then-mutate model refuses exactly the add / rmdir calls the library refuses"""
+    if not ctx.atomic:
+        return
+    answers = ctx.driver.ask([a[0] for a in ctx.atomic])
+    for (line, res, cause, rp), ans in zip(ctx.atomic, answers):
+        model_ok = ans.startswith('ok')
+        ctx.count(key=line, nontrivial=not model_ok, kind='atomic:%s' % ('ok' if model_ok else ans.split()[0].split('.')[-1]))
+        if ans == 'bad-op':
+            ctx.disagree('S-atomic/bad-op', 'driver rejected %s' % line[:120], rp)
+        elif model_ok != (res == 'ok'):
+            ctx.disagree('S-atomic/%s' % cause.split(' ')[0], 'library says %s, model says %s for %s (%s)' % (res, ans[:60], cause, line[-80:]), rp)
+    ctx.traces_validated += len(ctx.atomic)
+
+
 def run(ctx):
-    n = 50 if ctx.quick else 1200
+    ctx.atomic = []
+    n = 250 if ctx.quick else 5000
     for _ in range(n):
         seed = ctx.rng.randrange(2 ** 62)
         rng = random.Random(seed)
         cfg = gen.sample_cfg(rng)
         run_history(ctx, rng, cfg, rng.choice([4, 8, 14]))
-        if ctx.time_left() < 20:
+        if ctx.time_left() < 30:
             break
+    check_atomic(ctx)
 
 
 def replay(ctx, obj):
